@@ -31,7 +31,8 @@ def OpOK (isServer : Bool) : Op → Prop
   | .writeMessage _ data dnp _ dn _ => data.length < 2 ^ 40 ∧ (∀ c ∈ dnp, c.length < 2 ^ 40) ∧ ∀ c ∈ dn, c.length < 2 ^ 40
   | .writeJSON enc dnp _ dn _ => enc.length < 2 ^ 40 ∧ (∀ c ∈ dnp, c.length < 2 ^ 40) ∧ ∀ c ∈ dn, c.length < 2 ^ 40
   | .nextWriter _ dnp _ => ∀ c ∈ dnp, c.length < 2 ^ 40
-  | .writePrepared _ img => ∃ fs : List Bytes, (∀ f ∈ fs, IsFrame isServer f) ∧ img = fs.flatten
+  | .writePrepared t img dnp _ => (∃ fs : List Bytes, (∀ f ∈ fs, IsFrame isServer f) ∧ img = fs.flatten) ∧
+      (isData t = true → ∀ c ∈ dnp, c.length < 2 ^ 40)
   | _ => True
 
 /-- whole frames, then at most one incomplete write (a strict prefix of a frame sequence) -/
@@ -681,10 +682,16 @@ theorem writeControl_inv {sv L F} (s : W) (t : Int) (data : Bytes) (d : Int) (h 
         rw [List.append_nil, controlFrame_eq' _ _ _ _ hlen', h.base.isv]
         exact Whole.single ⟨_, _, _, by omega, by omega, rfl⟩
 
-theorem writePreparedImage_inv {sv L F} (s : W) (t : Int) (img : Bytes) (h : Inv sv L F s)
-    (himg : Whole sv img) : Inv sv L F (writePreparedImage s t img).2 := by
+theorem writePreparedImage_inv {sv L F} (s : W) (t : Int) (img : Bytes) (dnp : List Bytes) (fullp : Bytes)
+    (h : Inv sv L F s) (himg : Whole sv img) (hdn : isData t = true → ∀ c ∈ dnp, c.length < 2 ^ 40) :
+    Inv sv L F (writePreparedImage s t img dnp fullp).2 := by
   unfold writePreparedImage
-  exact connWrite_inv _ _ _ _ _ h (by simpa using himg)
+  dsimp only
+  have hc : Inv sv L F (if isData t then closePrev s dnp fullp else s) := by
+    split
+    · rename_i ht; exact closePrev_inv s dnp fullp h (hdn ht)
+    · exact h
+  exact connWrite_inv _ _ _ _ _ hc (by simpa using himg)
 
 theorem hReadFrom_inv {sv L F} (s : W) (j : Nat) (r : Src) (h : Inv sv L F s) :
     Inv sv L F (hReadFrom s j r).2 := by
@@ -710,9 +717,9 @@ theorem applyOp_inv {sv L F} (s : W) (op : Op) (h : Inv sv L F s) (hop : OpOK sv
   | writeMessage t data dnp fullp dn full => exact writeMessage_inv s t data dnp fullp dn full h hop.1 hop.2.1 hop.2.2
   | writeJSON enc dnp fullp dn full => exact writeJSON_inv s enc dnp fullp dn full h hop.1 hop.2.1 hop.2.2
   | writeControl t data d => exact writeControl_inv s t data d h
-  | writePrepared t img =>
-    obtain ⟨fs, hfs, himg⟩ := hop
-    exact writePreparedImage_inv s t img h ⟨fs, himg, hfs⟩
+  | writePrepared t img dnp fullp =>
+    obtain ⟨⟨fs, hfs, himg⟩, hdn⟩ := hop
+    exact writePreparedImage_inv s t img dnp fullp h ⟨fs, himg, hfs⟩ hdn
   | setWriteDeadline d => exact h.congr rfl rfl rfl rfl rfl rfl
   | enableWriteCompression b => exact h.congr rfl rfl rfl rfl rfl rfl
   | setCompressionLevel l =>
